@@ -3,7 +3,7 @@
 //! how to answer: correctly, fragmented, cut, refused, or with wrong data.
 use std::io::{BufRead, BufReader, Write};
 use std::net::{Shutdown, TcpListener, TcpStream};
-use std::sync::atomic::{AtomicBool, AtomicU64, Ordering};
+use std::sync::atomic::{AtomicU64, Ordering};
 use std::sync::{Arc, Mutex};
 use std::time::Duration;
 
@@ -47,64 +47,115 @@ pub struct ReqLog {
 
 pub type Script = Arc<dyn Fn(&Req, &[u8]) -> Action + Send + Sync>;
 
+/// What one case wants served; swapped in and out of a pooled listener.
+struct CaseState {
+    file: Arc<Vec<u8>>,
+    script: Script,
+    log: Mutex<Vec<ReqLog>>,
+    counter: AtomicU64,
+}
+
+/// A listener that lives for the whole process and serves whatever case currently
+/// holds it. Listeners are pooled: thousands of cases per run would otherwise leave
+/// thousands of listening ports behind in TIME_WAIT and exhaust the ephemeral range.
+struct Core {
+    port: u16,
+    state: Mutex<Arc<CaseState>>,
+    conns: AtomicU64,
+}
+
+static POOL: Mutex<Vec<Arc<Core>>> = Mutex::new(Vec::new());
+
+fn idle_state() -> Arc<CaseState> {
+    Arc::new(CaseState {
+        file: Arc::new(Vec::new()),
+        script: Arc::new(|_r, _f| Action::Drop),
+        log: Mutex::new(Vec::new()),
+        counter: AtomicU64::new(0),
+    })
+}
+
+fn new_core() -> Arc<Core> {
+    let mut listener = None;
+    for attempt in 0..600 {
+        match TcpListener::bind("127.0.0.1:0") {
+            Ok(l) => {
+                listener = Some(l);
+                break;
+            }
+            Err(_) if attempt < 599 => std::thread::sleep(Duration::from_millis(100)),
+            Err(e) => panic!("bind: {:?}", e),
+        }
+    }
+    let listener = listener.unwrap();
+    let port = listener.local_addr().unwrap().port();
+    let core = Arc::new(Core {
+        port,
+        state: Mutex::new(idle_state()),
+        conns: AtomicU64::new(0),
+    });
+    let c2 = core.clone();
+    std::thread::spawn(move || {
+        for stream in listener.incoming() {
+            let Ok(stream) = stream else { continue };
+            let _ = stream.set_nodelay(true);
+            let conn = c2.conns.fetch_add(1, Ordering::SeqCst);
+            let c3 = c2.clone();
+            std::thread::spawn(move || serve_conn(stream, conn, c3));
+        }
+    });
+    core
+}
+
 pub struct Server {
     pub port: u16,
-    pub log: Arc<Mutex<Vec<ReqLog>>>,
-    stop: Arc<AtomicBool>,
-    handle: Option<std::thread::JoinHandle<()>>,
+    core: Arc<Core>,
+    state: Arc<CaseState>,
 }
 
 impl Server {
     pub fn start(file: Arc<Vec<u8>>, script: Script) -> Server {
-        let listener = TcpListener::bind("127.0.0.1:0").expect("bind");
-        let port = listener.local_addr().unwrap().port();
-        listener.set_nonblocking(true).unwrap();
-        let log = Arc::new(Mutex::new(Vec::new()));
-        let stop = Arc::new(AtomicBool::new(false));
-        let counter = Arc::new(AtomicU64::new(0));
-        let conns = Arc::new(AtomicU64::new(0));
-        let (l2, s2) = (log.clone(), stop.clone());
-        let handle = std::thread::spawn(move || {
-            while !s2.load(Ordering::SeqCst) {
-                match listener.accept() {
-                    Ok((stream, _)) => {
-                        let _ = stream.set_nonblocking(false);
-                        let _ = stream.set_nodelay(true);
-                        let conn = conns.fetch_add(1, Ordering::SeqCst);
-                        let (file, script, log, counter, stop) =
-                            (file.clone(), script.clone(), l2.clone(), counter.clone(), s2.clone());
-                        std::thread::spawn(move || {
-                            serve_conn(stream, conn, file, script, log, counter, stop)
-                        });
-                    }
-                    Err(ref e) if e.kind() == std::io::ErrorKind::WouldBlock => {
-                        std::thread::sleep(Duration::from_micros(300));
-                    }
-                    Err(_) => break,
-                }
-            }
+        let core = POOL.lock().unwrap().pop().unwrap_or_else(new_core);
+        let state = Arc::new(CaseState {
+            file,
+            script,
+            log: Mutex::new(Vec::new()),
+            counter: AtomicU64::new(0),
         });
+        *core.state.lock().unwrap() = state.clone();
         Server {
-            port,
-            log,
-            stop,
-            handle: Some(handle),
+            port: core.port,
+            core,
+            state,
         }
     }
     pub fn url(&self) -> String {
         format!("http://127.0.0.1:{}/a.cba", self.port)
     }
     pub fn take_log(&self) -> Vec<ReqLog> {
-        self.log.lock().unwrap().clone()
+        self.state.log.lock().unwrap().clone()
+    }
+    /// Shared handle on the request log (entries are appended on arrival).
+    pub fn log_handle(&self) -> LogHandle {
+        LogHandle(self.state.clone())
+    }
+}
+
+pub struct LogHandle(Arc<CaseState>);
+
+impl LogHandle {
+    pub fn len(&self) -> usize {
+        self.0.log.lock().unwrap().len()
+    }
+    pub fn ranges_from(&self, mark: usize) -> Vec<(u64, u64)> {
+        self.0.log.lock().unwrap()[mark..].iter().filter_map(|r| r.req.range).collect()
     }
 }
 
 impl Drop for Server {
     fn drop(&mut self) {
-        self.stop.store(true, Ordering::SeqCst);
-        if let Some(h) = self.handle.take() {
-            let _ = h.join();
-        }
+        *self.core.state.lock().unwrap() = idle_state();
+        POOL.lock().unwrap().push(self.core.clone());
     }
 }
 
@@ -115,15 +166,7 @@ fn parse_range(v: &str) -> Option<(u64, u64)> {
     Some((a.trim().parse().ok()?, b.trim().parse().ok()?))
 }
 
-fn serve_conn(
-    stream: TcpStream,
-    conn: u64,
-    file: Arc<Vec<u8>>,
-    script: Script,
-    log: Arc<Mutex<Vec<ReqLog>>>,
-    counter: Arc<AtomicU64>,
-    _stop: Arc<AtomicBool>,
-) {
+fn serve_conn(stream: TcpStream, conn: u64, core: Arc<Core>) {
     let _ = stream.set_read_timeout(Some(Duration::from_secs(20)));
     let mut reader = BufReader::new(stream.try_clone().expect("clone stream"));
     let mut out = stream;
@@ -160,6 +203,10 @@ fn serve_conn(
                 headers.push((k, v));
             }
         }
+        // The case that holds the listener *now* (a connection never outlives its case in
+        // practice: the client is dropped before the server handle).
+        let st: Arc<CaseState> = core.state.lock().unwrap().clone();
+        let (file, script, log, counter) = (&st.file, &st.script, &st.log, &st.counter);
         let n = counter.fetch_add(1, Ordering::SeqCst);
         let req = Req {
             n,
@@ -169,7 +216,7 @@ fn serve_conn(
             raw_range,
             headers,
         };
-        let action = script(&req, &file);
+        let action = script(&req, file);
         // Log on arrival (before any byte of the response is sent) so that a client which
         // has seen the complete response is guaranteed to find its request in the log.
         let slot = {
@@ -191,7 +238,10 @@ fn serve_conn(
         };
         let mut sent = 0usize;
         let mut close = false;
-        let head = |status: u16, len: u64, req: &Req| -> String {
+        // `will_close`: the server closes the connection after this response although the
+        // response itself is complete; say so, otherwise the client may already have sent
+        // its next request on this connection and sees a reset it must count as a failure.
+        let head = |status: u16, len: u64, req: &Req, will_close: bool| -> String {
             let reason = match status {
                 200 => "OK",
                 206 => "Partial Content",
@@ -207,6 +257,9 @@ fn serve_conn(
                     h.push_str(&format!("Content-Range: bytes {}-{}/*\r\n", a, b));
                 }
             }
+            if will_close {
+                h.push_str("Connection: close\r\n");
+            }
             h.push_str("Content-Type: application/octet-stream\r\n\r\n");
             h
         };
@@ -215,7 +268,7 @@ fn serve_conn(
             Action::Full => {
                 desc = "full".to_string();
                 let status = if req.range.is_some() { 206 } else { 200 };
-                let h = head(status, correct.len() as u64, &req);
+                let h = head(status, correct.len() as u64, &req, false);
                 if out.write_all(h.as_bytes()).is_err() || out.write_all(&correct).is_err() {
                     close = true;
                 } else {
@@ -225,7 +278,7 @@ fn serve_conn(
             }
             Action::Fragmented(sizes) => {
                 desc = format!("fragmented{:?}", &sizes[..sizes.len().min(6)]);
-                let h = head(206, correct.len() as u64, &req);
+                let h = head(206, correct.len() as u64, &req, false);
                 let _ = out.write_all(h.as_bytes());
                 let _ = out.flush();
                 let mut o = 0;
@@ -246,7 +299,7 @@ fn serve_conn(
             }
             Action::CutAfter(k) => {
                 desc = format!("cut_after({})", k);
-                let h = head(206, correct.len() as u64, &req);
+                let h = head(206, correct.len() as u64, &req, true);
                 let _ = out.write_all(h.as_bytes());
                 let k = (*k).min(correct.len());
                 let _ = out.write_all(&correct[..k]);
@@ -260,7 +313,8 @@ fn serve_conn(
             }
             Action::Custom { status, declared_len, body } => {
                 desc = format!("custom(status={},declared={:?},body={})", status, declared_len, body.len());
-                let h = head(*status, declared_len.unwrap_or(body.len() as u64), &req);
+                let closing = declared_len.map(|d| d != body.len() as u64).unwrap_or(false);
+                let h = head(*status, declared_len.unwrap_or(body.len() as u64), &req, closing);
                 let _ = out.write_all(h.as_bytes());
                 let _ = out.write_all(body);
                 let _ = out.flush();
